@@ -13,8 +13,8 @@ func lcgFill(seed uint64, n int) []byte {
 	out := make([]byte, n)
 	s := seed
 	for i := 0; i < n; i++ {
-		s = (s*1103515245 + 12345) % 2147483648
-		out[i] = byte((s / 65536) % 256)
+		s = (141*s + 28411) & 65535
+		out[i] = byte(s >> 8)
 	}
 	return out
 }
